@@ -1,24 +1,14 @@
+#include "modules/sub/oracle.h"
 #define RV __CPROVER_return_value
 #define OLD(e) __CPROVER_old(e)
-size_t      g_nt;
-sub0_topic *g_t0, *g_t1, *g_t2;
+#define TPU(t) (__CPROVER_is_fresh((t), sizeof(struct sub0_topic)) && (t)->len <= SUB_MAXTOPIC && ((t)->len == 0 || __CPROVER_is_fresh((t)->buf, (t)->len)))
 static bool sub0_matches(sub0_ctx *ctx, uint8_t *body, size_t len)
-__CPROVER_requires(__CPROVER_is_fresh(ctx, sizeof(struct sub0_ctx)) 
-#if VPV >= 1
-&& SUB_TOPICS_PRE(ctx, g_nt, g_t0, g_t1, g_t2)
-#else
-&& g_nt == 0
-#endif
-)
-#if VPV >= 2
+__CPROVER_requires(__CPROVER_is_fresh(ctx, sizeof(struct sub0_ctx)) && TPU(g_t0) && TPU(g_t1) && TPU(g_t2) && g_nt <= 3 && ctx->topics.ll_offset == 0 && VP_LIST3_LINKS(&ctx->topics.ll_head, g_nt, &g_t0->node, &g_t1->node, &g_t2->node))
 __CPROVER_requires(len == 0 || __CPROVER_is_fresh(body, len))
-#else
-__CPROVER_requires(len == 0)
-#endif
 __CPROVER_requires(g_qa_addr == &ctx->recv_queue && g_qb_addr == NULL)
 __CPROVER_assigns()
-#if VPV >= 3
-__CPROVER_ensures(VPE)
+#ifndef NOORACLE
+__CPROVER_ensures(RV==vp_sub_oracle(g_nt,g_t0,g_t1,g_t2,body,len))
 #endif
 __CPROVER_ensures(g_nt == 0 ==> !RV)
 ;
